@@ -124,10 +124,29 @@ func vfC18Run(t *testing.T, ops []string, npeers int) (string, []vfC18Obs, bool)
 			rec = append(rec, vfC18Obs{Op: op, Rets: retj, Blocked: blocked, Log: logj, Token: token, Mem: mem})
 		}
 
+		// subscription announcements carry the optional partial-message flags with varying values: re-announcing a subscription
+		// with other flags is not a second join
+		nsub := 0
+		subOpts := func(sub bool, tt string) *pb.RPC_SubOpts {
+			o := &pb.RPC_SubOpts{Subscribe: &sub, Topicid: &tt}
+			nsub++
+			switch nsub % 4 {
+			case 1:
+				b := true
+				o.RequestsPartial = &b
+			case 2:
+				b, c := true, true
+				o.RequestsPartial, o.SupportsSendingPartial = &b, &c
+			case 3:
+				b := false
+				o.SupportsSendingPartial = &b
+			}
+			return o
+		}
 		subRPC := func(p int, sub bool) {
 			tt := "t"
 			vfEval(ps, func() {
-				ps.handleIncomingRPC(&RPC{RPC: pb.RPC{Subscriptions: []*pb.RPC_SubOpts{{Subscribe: &sub, Topicid: &tt}}}, from: pids[p]})
+				ps.handleIncomingRPC(&RPC{RPC: pb.RPC{Subscriptions: []*pb.RPC_SubOpts{subOpts(sub, tt)}}, from: pids[p]})
 			})
 		}
 
@@ -143,7 +162,7 @@ func vfC18Run(t *testing.T, ops []string, npeers int) (string, []vfC18Obs, bool)
 						switch q[0] {
 						case 'S', 'U':
 							sub := q[0] == 'S'
-							ps.handleIncomingRPC(&RPC{RPC: pb.RPC{Subscriptions: []*pb.RPC_SubOpts{{Subscribe: &sub, Topicid: &tt}}}, from: pids[p]})
+							ps.handleIncomingRPC(&RPC{RPC: pb.RPC{Subscriptions: []*pb.RPC_SubOpts{subOpts(sub, tt)}}, from: pids[p]})
 						case 'D':
 							ps.clearPeerFromTopicsState(pids[p])
 						}
@@ -169,6 +188,54 @@ func vfC18Run(t *testing.T, ops []string, npeers int) (string, []vfC18Obs, bool)
 				p := int(op[1] - '0')
 				vfEval(ps, func() { ps.clearPeerFromTopicsState(pids[p]) })
 				acts = append(acts, fmt.Sprintf("AUnsub %d", p))
+			case 'c':
+				// the handler is created while the event loop is busy with membership changes: the call is parked behind them,
+				// so the handler must start from the membership AFTER them and must not be told about them
+				if h != nil {
+					continue
+				}
+				parts := strings.Split(op[2:], ",")
+				tt := "t"
+				gate := make(chan struct{})
+				evalDone := make(chan struct{})
+				go func() {
+					vfEval(ps, func() {
+						<-gate
+						for _, q := range parts {
+							p := int(q[1] - '0')
+							switch q[0] {
+							case 'S', 'U':
+								sub := q[0] == 'S'
+								ps.handleIncomingRPC(&RPC{RPC: pb.RPC{Subscriptions: []*pb.RPC_SubOpts{subOpts(sub, tt)}}, from: pids[p]})
+							case 'D':
+								ps.clearPeerFromTopicsState(pids[p])
+							}
+						}
+					})
+					close(evalDone)
+				}()
+				synctest.Wait()
+				hc := make(chan *TopicEventHandler, 1)
+				go func() {
+					hh, err := topic.EventHandler()
+					if err != nil {
+						t.Error(err)
+					}
+					hc <- hh
+				}()
+				synctest.Wait()
+				close(gate)
+				h = <-hc
+				<-evalDone
+				for _, q := range parts {
+					p := int(q[1] - '0')
+					if q[0] == 'S' {
+						acts = append(acts, fmt.Sprintf("ASub %d", p))
+					} else {
+						acts = append(acts, fmt.Sprintf("AUnsub %d", p))
+					}
+				}
+				acts = append(acts, "ACreate")
 			case 'C':
 				if h != nil {
 					continue
@@ -327,6 +394,15 @@ func TestVF_C18(t *testing.T) {
 			case !created && r < 25:
 				op = "C"
 				created = true
+				if rng.Intn(3) == 0 {
+					perm := rng.Perm(np)
+					k := 1 + rng.Intn(2)
+					var parts []string
+					for _, p := range perm[:k] {
+						parts = append(parts, fmt.Sprintf("%c%d", "SUUD"[rng.Intn(4)], p))
+					}
+					op = "c:" + strings.Join(parts, ",")
+				}
 			case r < 33:
 				perm := rng.Perm(np)
 				k := 2 + rng.Intn(2)
